@@ -1,7 +1,9 @@
 import XpmVerif.Basic.JsonUtil
 import XpmVerif.Model.Clean
+import XpmVerif.Model.CleanLinks
+import XpmVerif.Generated.FilterSrc
 /-! Line-protocol driver for M9 (C19).  `lake env lean --run Drive/C19.lean < ops.jsonl` -/
-open Lean XpmVerif XpmVerif.J XpmVerif.Filter
+open Lean XpmVerif XpmVerif.J XpmVerif.Filter XpmVerif.Gen
 
 def quirksOf (j : Json) : Quirks :=
   { memberObj := boolF j "memberObj", regexRaises := boolF j "regexRaises",
@@ -51,6 +53,15 @@ def xpOf (j : Json) : Xp :=
 
 def layoutOf (j : Json) : Layout := { jobs := (arrF j "jobs").map jobOf, xps := (arrF j "xps").map xpOf }
 
+def linkOf (j : Json) : Link := match arr j with
+  | [a, b, c, d] => { key := (str a, str b), target := (str c, str d) }
+  | _ => { key := ("", ""), target := ("", "") }
+
+def llayoutOf (j : Json) : LLayout :=
+  { jobs := (arrF j "jobs").map jobOf, links := (arrF j "links").map linkOf, xps := (arrF j "xps").map xpOf }
+
+def linksJ (l : List Link) : Json := Json.arr (l.map (fun x => Json.str (x.key.1 ++ "/" ++ x.key.2))).toArray
+
 def cleanOptsOf (j : Json) : CleanOpts :=
   { experiment := optStr (fld j "experiment"),
     filter := if isNull (fld j "filter") then none else some (exprOf (fld j "filter")),
@@ -71,34 +82,48 @@ def stJ (s : Option JState) : Json := optStrJ (s.map JState.name)
 
 def step (_ : Unit) (j : Json) : Unit × Json :=
   let q := quirksOf (fld j "q")
+  -- `"src": true`: the implementation side is the definitions regenerated from the source (`Generated/FilterSrc.lean`)
+  let src := boolF j "src"
   let rx := rxOf (fld j "rx")
   let out :=
     match strF j "op" with
     | "filter" =>
       let e := exprOf (fld j "expr")
       let infos := (arrF j "infos").map infoOfJson
-      Json.mkObj [("impl", Json.arr (infos.map (fun i => optBoolJ (evalImpl q rx e i))).toArray),
+      Json.mkObj [("impl", Json.arr (infos.map (fun i => optBoolJ (if src then evalSrc rx e i else evalImpl q rx e i))).toArray),
         ("spec", Json.arr (infos.map (fun i => Json.bool (evalSpec rx e i))).toArray)]
     | "state" =>
       let jobs := (arrF j "jobs").map jobOf
-      Json.mkObj [("impl", Json.arr (jobs.map (fun x => stJ (stateImpl q x))).toArray),
+      Json.mkObj [("impl", Json.arr (jobs.map (fun x => stJ (if src then stateSrc x else stateImpl q x))).toArray),
         ("spec", Json.arr (jobs.map (fun x => stJ (stateSpec x))).toArray)]
     | "clean" =>
       let L := layoutOf (fld j "layout")
       let o := cleanOptsOf (fld j "opts")
       let spec := clean rx L o
-      (match cleanImpl q rx scriptOf L o with
+      (match (if src then cleanSrc rx scriptOf L o else cleanImpl q rx scriptOf L o) with
        | none => Json.mkObj [("raised", true), ("remaining", keysJ L.jobs), ("spec_remaining", keysJ spec.jobs)]
        | some L' => Json.mkObj [("raised", false), ("remaining", keysJ L'.jobs), ("spec_remaining", keysJ spec.jobs)])
     | "orphans" =>
       let L := layoutOf (fld j "layout")
       let o := orphOptsOf (fld j "opts")
-      Json.mkObj [("remaining", keysJ (orphansImpl L o).jobs),
+      Json.mkObj [("remaining", keysJ (if src then orphansSrc L o else orphansImpl L o).jobs),
         ("referenced", keysJ (L.jobs.filter (referenced L o)))]
+    | "cleanL" =>
+      let LL := llayoutOf (fld j "layout")
+      let o := cleanOptsOf (fld j "opts")
+      (match cleanImplL q rx scriptOf LL o with
+       | none => Json.mkObj [("raised", true), ("remaining", keysJ LL.jobs), ("links", linksJ LL.links)]
+       | some L' => Json.mkObj [("raised", false), ("remaining", keysJ L'.jobs), ("links", linksJ L'.links)])
+    | "orphansL" =>
+      let LL := llayoutOf (fld j "layout")
+      let o := orphOptsOf (fld j "opts")
+      let r := orphansImplL LL o
+      Json.mkObj [("remaining", keysJ r.jobs), ("links", linksJ r.links),
+        ("live", linksJ (LL.links.filter (fun l => (LL.res l.key).isSome)))]
     | "history" =>
       let L := layoutOf (fld j "layout")
       let cs := (arrF j "cmds").map cmdOf
-      Json.mkObj [("remaining", keysJ (runCmds q rx scriptOf L cs).jobs)]
+      Json.mkObj [("remaining", keysJ (if src then runCmdsSrc rx scriptOf L cs else runCmds q rx scriptOf L cs).jobs)]
     | op => Json.mkObj [("error", Json.str s!"bad-op {op}")]
   ((), out)
 
